@@ -253,6 +253,14 @@ func (a *admCtx) walkNode(n ast.Node, recv, netVar string, simpleTop bool, depth
 			a.emit("ASwap")
 		case len(ch) == 2 && ch[0] == recv && ch[1] == "notifyAdminAction":
 			a.emit("ANotify")
+		case len(ch) == 3 && ch[0] == "json" && ch[1] == "NewDecoder" && ch[2] == "Decode":
+			a.emit("ADecode")
+		case len(ch) == 2 && ch[0] == "protocol" && strings.HasPrefix(ch[1], "IsValid"):
+			a.emit("(AValid " + adm_coqStr(ch[1]) + ")")
+		case len(ch) == 1 && ch[0] == "getOptByCfgName":
+			a.emit("AGetOpt")
+		case len(ch) == 2 && ch[0] == "http_api" && ch[1] == "NewReqParams":
+			a.emit("AParams")
 		case len(ch) == 2 && ch[0] == recv:
 			if helper := a.p.method(a.recvType, ch[1]); helper != nil && helper.Body != nil {
 				if depth < 2 {
@@ -665,6 +673,10 @@ Inductive aev :=
 | AClient (m : string)    (* s.client.<m>: direct HTTP client use (graphite) *)
 | ASwap                   (* s.nsqadmin.swapOpts *)
 | ANotify                 (* s.notifyAdminAction *)
+| ADecode                 (* json.NewDecoder(req.Body).Decode(&body) *)
+| AValid (f : string)     (* protocol.IsValidTopicName / IsValidChannelName *)
+| AGetOpt                 (* getOptByCfgName *)
+| AParams                 (* http_api.NewReqParams (query string and body) *)
 | ADeep (m : string).     (* helper nesting deeper than the translator follows *)
 
 Record aroute := mkRoute { ar_method : string; ar_path : string; ar_handler : string;
